@@ -364,6 +364,87 @@ def make_sets(rng, count, nmax, nbig=0, bigmax=0):
     return out
 
 
+# ----------------------------------------------------------------------------------------------
+# systematic seam sweep: one set per target number of RA chunks in the slice that holds the data
+# ----------------------------------------------------------------------------------------------
+SWEEP_DECS = [64.0, 0.0, -40.0, 30.0, 75.0, -64.0, 15.0, -20.0, 50.0, -75.0]
+
+
+def sweep_set(T, dec0, variant):
+    """A point set whose declination slice (in the real chunk layout, read back from a real chunks object) has
+    exactly T RA chunks and embraces the whole circle with no RA offset: isolated points all round the circle
+    (spacing well above the linking length, close enough that no RA offset qualifies) and one pair whose only link
+    crosses the boundary between the last and the first RA cell (RA = 0 in the frame of the actual raOffset).
+    Variant 'B' adds a second ring of isolated points in another declination slice.  None if T is not attainable."""
+    sg = sg_module()
+    if T < 3:
+        return None
+    c0 = math.cos(math.radians(dec0))
+    ms = c0 * 360.0 / (T - 2.5)
+    seam = 0.0
+    for _ in range(25):
+        ring_decs = [dec0]
+        if variant == 'B':
+            other = dec0 - (1.0 if dec0 >= 0 else -1.0) * 1.3 * ms
+            if abs(other) > 85.0 or 1.3 * ms > 70.0:
+                return None
+            ring_decs.append(other)
+        cmax = max(math.cos(math.radians(d)) for d in ring_decs)
+        cmin = min(math.cos(math.radians(d)) for d in ring_decs)
+        m = max(6, int(math.ceil(360.0 * cmax / (1.5 * ms))))
+        step = 360.0 / m
+        L = min(ms / 4.0, step * cmin / 3.5, 5.0)
+        pts = []
+        for d in ring_decs:
+            pts += [(wrap_ra(seam + (k + 0.5) * step), d) for k in range(m)]
+        pts += [(wrap_ra(seam - 0.3 * L / c0), dec0), (wrap_ra(seam + 0.5 * L / c0), dec0)]
+        ra = np.array([p[0] for p in pts])
+        dec = np.array([p[1] for p in pts])
+        try:
+            ch = sg.chunks(ra, dec, ms)
+        except Exception:
+            return None
+        want_seam = wrap_ra(360.0 - ch.raOffset)
+        if abs(want_seam - seam) > 1e-9:
+            seam = want_seam
+            continue
+        k = int(np.floor((dec0 - ch.decBounds[0]) * ch.nDec / (ch.decBounds[ch.nDec] - ch.decBounds[0])))
+        k = min(max(k, 0), ch.nDec - 1)
+        got = ch.nRa[k]
+        if got == T and ch.raBounds[k][0] == 0.0:
+            return {'ra': [p[0] for p in pts], 'dec': [p[1] for p in pts], 'L': L, 'cs': ms,
+                    'tag': 'sweep-' + variant, 'nra': T}
+        if got <= 2:
+            return None
+        if got == T:            # right count but the slice does not embrace the circle: not this family
+            return None
+        ms *= (got - 2.5) / (T - 2.5)
+    return None
+
+
+def make_sweep(rng, tmax, perm_b):
+    out, missing = [], []
+    for T in range(2, tmax + 1):
+        hit = False
+        for variant in ('A', 'B'):
+            s = None
+            for t in range(3):              # a few declinations: not every count is attainable at every one
+                s = sweep_set(T, SWEEP_DECS[(T + t * 3 + (5 if variant == 'B' else 0)) % len(SWEEP_DECS)], variant)
+                if s is not None:
+                    break
+            if s is None:
+                continue
+            hit = True
+            out.append(s)
+            if variant == 'A' or perm_b:
+                idx = list(range(len(s['ra'])))
+                rng.shuffle(idx)
+                out.append(dict(s, ra=[s['ra'][i] for i in idx], dec=[s['dec'][i] for i in idx], tag=s['tag'] + '-perm'))
+        if not hit:
+            missing.append(T)
+    return out, missing
+
+
 def run_real(s):
     sg = sg_module()
     ra = np.array(s['ra'], dtype='d')
@@ -492,8 +573,11 @@ def run(ctx):
     rng = random.Random(ctx.seed)
     if ctx.quick:
         sets = make_sets(rng, 400, 48)
+        sweep, missing = make_sweep(rng, 60, True)
     else:
         sets = make_sets(rng, 2500, 70, nbig=40, bigmax=260)
+        sweep, missing = make_sweep(rng, 400, False)
+    sets += sweep
     recs, kept = [], []
     skipped = 0
     for s in sets:
@@ -513,6 +597,9 @@ def run(ctx):
     for s, _ in kept:
         tags[s['tag']] = tags.get(s['tag'], 0) + 1
     ctx.sample({'recorded_sets': len(recs), 'not_judged_too_many_borderline_pairs': skipped, 'by_driver': tags,
+                'seam_sweep_ra_chunk_counts': sorted({x['nra'] for x in sweep}) if len(sweep) < 200 else
+                '%d distinct counts %d..%d' % (len({x['nra'] for x in sweep}), min(x['nra'] for x in sweep), max(x['nra'] for x in sweep)),
+                'seam_sweep_counts_not_attainable': missing,
                 'borderline_pairs_total': sum(len(r['border']) for r in recs)})
     if kept:
         s, obs = kept[0]
